@@ -1,11 +1,14 @@
 (** C11, second part: the clock does not matter as long as nothing expires.
     [sim d1 d2]: the same keys in the same order, equal values, TTL present on both sides or
-    on neither (deadlines and the sweeper's index may differ).  Every write command of the
-    string/key family, the list/set/hash family and XADD / XDEL / XTRIM, run at two different
-    clock readings on [sim]-related databases without expired entries, yields [sim]-related
-    databases: so a redo at ANY later time restores values and TTL presence. *)
+    on neither (deadlines and the sweeper's index may differ).  Every command of the
+    string/key family, the list/set/hash family, XADD / XDEL / XTRIM, and every read, run at two
+    different clock readings on [sim]-related databases without expired entries, yields
+    [sim]-related databases: so a redo at ANY later time restores values and TTL presence.
+    Outside this part: the consumer-group commands (they stamp the clock into pending entries),
+    the sorted-set writes and scripts (their per-handler proofs are not done here; they are
+    covered by the one-clock theorem of Proofs/AofFacts.v). *)
 From Ferrous Require Import Base.Bytes Generated Model.Resp Model.Types Model.Glob Model.Strings
-  Model.Lists Model.ZSets Model.Streams Model.Scan Model.Server Model.Conn Model.Aof
+  Model.Lists Model.ZSets Model.Streams Model.Scan Model.Lua Model.Server Model.Conn Model.Aof
   Proofs.BytesFacts Proofs.StringsFacts Proofs.ListsFacts Proofs.ServerFacts Proofs.AofFacts.
 From Coq Require Import ZifyBool.
 Open Scope Z_scope.
@@ -411,10 +414,10 @@ Proof.
   destruct (parse_fields (skipn 3 parts) []) as [f|]; [|exact H].
   destruct (beq idb (bs "*")).
   - raw H k; try exact H.
-    + destruct (oracle_sid o); [|destruct (_ <=? _); exact H].
+    + destruct (oracle_sid o); [|destruct (_ && _); exact H].
       destruct (auto_clock _ _); [|exact H]. destruct (st_add_auto _ _ _) as [[? ?]|]; [|exact H].
       cbn [snd]. apply put_stream_sim; assumption.
-    + destruct (oracle_sid o); [|destruct (_ <=? _); exact H].
+    + destruct (oracle_sid o); [|destruct (_ && _); exact H].
       destruct (auto_clock _ _); [|exact H]. destruct (st_add_auto _ _ _) as [[? ?]|]; [|exact H].
       cbn [snd]. apply put_stream_sim; [exact H|reflexivity].
   - destruct (sid_of_bytes idb) as [id|]; [|exact H].
@@ -439,11 +442,14 @@ Proof.
   destruct (0 <? n); [apply put_stream_sim; assumption|exact H].
 Qed.
 
-(** commands that stamp the clock into the value (pending entries' delivery times) *)
-Definition clocked_cmds : list bytes := [bs "XGROUP"; bs "XREADGROUP"; bs "XACK"; bs "XCLAIM"].
+(** commands outside the clock-independent part: XGROUP .. XCLAIM stamp the clock into the value;
+    for the sorted-set writes and scripts the handler-by-handler proof is not done here *)
+Definition untimed_excluded : list bytes :=
+  [bs "XGROUP"; bs "XREADGROUP"; bs "XACK"; bs "XCLAIM";
+   bs "ZADD"; bs "ZREM"; bs "ZINCRBY"; bs "ZPOPMIN"; bs "ZPOPMAX"; bs "EVAL"; bs "EVALSHA"; bs "SCRIPT"].
 
 Lemma exec_streams_sim t1 t2 d1 d2 name parts o r1 r2 x1 x2 :
-  mem_name name clocked_cmds = false ->
+  mem_name name untimed_excluded = false ->
   sim d1 d2 -> fresh t1 d1 = true -> fresh t2 d2 = true ->
   exec_streams t1 d1 name parts o = Some (r1, x1) -> exec_streams t2 d2 name parts o = Some (r2, x2) ->
   sim x1 x2.
@@ -459,11 +465,36 @@ Proof.
      eauto using h_xrange_inert, h_xrevrange_inert, h_xlen_inert, h_xread_inert, h_xpending_inert, h_xinfo_inert; fail)
   | (to_snd A1 A2; auto using h_xadd_sim, h_xtrim_sim, h_xdel_sim) ].
 Qed.
+Lemma exec_zsets_sim t1 t2 d1 d2 name parts o r1 r2 x1 x2 :
+  mem_name name untimed_excluded = false ->
+  sim d1 d2 -> fresh t1 d1 = true -> fresh t2 d2 = true ->
+  exec_zsets t1 d1 name parts o = Some (r1, x1) -> exec_zsets t2 d2 name parts o = Some (r2, x2) ->
+  sim x1 x2.
+Proof.
+  unfold exec_zsets. intros Hc H F1 F2 E1 E2.
+  repeat match type of E1 with
+  | (if beq ?n ?c then _ else _) = _ =>
+      let E := fresh "E" in destruct (beq n c) eqn:E;
+      [apply beq_eq in E; subst n; try (exfalso; vm_compute in Hc; discriminate Hc)|clear E]
+  end; try discriminate; inversion E1 as [A1]; inversion E2 as [A2]; clear E1 E2;
+  (eapply (inert_pair_sim t1 t2 d1 d2); [exact H|exact F1|exact F2| |];
+   eauto using h_zscore_inert, h_zcard_inert, h_zrank_inert, h_zrange_inert, h_zrangebyscore_inert, h_zcount_inert).
+Qed.
 Lemma exec_scan_sim t1 t2 d1 d2 name parts o r1 r2 x1 x2 :
   sim d1 d2 -> fresh t1 d1 = true -> fresh t2 d2 = true ->
   exec_scan t1 d1 name parts o = Some (r1, x1) -> exec_scan t2 d2 name parts o = Some (r2, x2) -> sim x1 x2.
 Proof.
   intros H F1 F2 E1 E2. eapply (inert_pair_sim t1 t2 d1 d2); eauto using exec_scan_inert.
+Qed.
+Lemma exec_scripts_sim t1 t2 d1 d2 name parts o r1 r2 x1 x2 :
+  mem_name name untimed_excluded = false -> sim d1 d2 ->
+  exec_scripts t1 d1 name parts o = Some (r1, x1) -> exec_scripts t2 d2 name parts o = Some (r2, x2) -> sim x1 x2.
+Proof.
+  unfold exec_scripts. intros Hc H E1 E2.
+  destruct (beq name (bs "EVAL")) eqn:E.
+  { apply beq_eq in E. subst name. vm_compute in Hc. discriminate Hc. }
+  destruct (beq name (bs "EVALSHA") || beq name (bs "SCRIPT")); [|discriminate].
+  inversion E1; inversion E2; subst. exact H.
 Qed.
 
 (** which dispatcher answers depends on the name only *)
@@ -474,15 +505,23 @@ Proof. unfold exec_strings. dom_tac. Qed.
 Lemma exec_lists_dom t1 t2 d1 d2 name parts o :
   exec_lists t1 d1 name parts o = None <-> exec_lists t2 d2 name parts o = None.
 Proof. unfold exec_lists. dom_tac. Qed.
+Lemma exec_zsets_dom t1 t2 d1 d2 name parts o :
+  exec_zsets t1 d1 name parts o = None <-> exec_zsets t2 d2 name parts o = None.
+Proof. unfold exec_zsets. dom_tac. Qed.
 Lemma exec_streams_dom t1 t2 d1 d2 name parts o :
   exec_streams t1 d1 name parts o = None <-> exec_streams t2 d2 name parts o = None.
 Proof. unfold exec_streams. dom_tac. Qed.
 Lemma exec_scan_dom t1 t2 d1 d2 name parts o :
   exec_scan t1 d1 name parts o = None <-> exec_scan t2 d2 name parts o = None.
 Proof. unfold exec_scan. dom_tac. Qed.
+Lemma exec_scripts_dom t1 t2 d1 d2 name parts o :
+  exec_scripts t1 d1 name parts o = None <-> exec_scripts t2 d2 name parts o = None.
+Proof. unfold exec_scripts. dom_tac. Qed.
 
+Ltac dom_case D :=
+  try (destruct D as [Da Db]; first [specialize (Da eq_refl) | specialize (Db eq_refl)]; discriminate).
 Lemma exec_db_sim t1 t2 d1 d2 name parts o :
-  mem_name name clocked_cmds = false ->
+  mem_name name untimed_excluded = false ->
   sim d1 d2 -> fresh t1 d1 = true -> fresh t2 d2 = true ->
   match exec_db t1 d1 name parts o, exec_db t2 d2 name parts o with
   | Some (_, x1), Some (_, x2) => sim x1 x2
@@ -491,338 +530,107 @@ Lemma exec_db_sim t1 t2 d1 d2 name parts o :
   end.
 Proof.
   intros Hc H F1 F2. unfold exec_db.
-  pose proof (exec_strings_dom t1 t2 d1 d2 name parts) as D1.
-  destruct (exec_strings t1 d1 name parts) as [[r1 x1]|] eqn:E1, (exec_strings t2 d2 name parts) as [[r2 x2]|] eqn:E2;
-    try (destruct D1 as [D1a D1b]; first [specialize (D1a eq_refl) | specialize (D1b eq_refl)]; discriminate).
+  pose proof (exec_strings_dom t1 t2 d1 d2 name parts) as D.
+  destruct (exec_strings t1 d1 name parts) as [[r1 x1]|] eqn:E1, (exec_strings t2 d2 name parts) as [[r2 x2]|] eqn:E2; dom_case D.
   { eapply exec_strings_sim; eauto. }
-  clear D1. pose proof (exec_lists_dom t1 t2 d1 d2 name parts o) as D2.
-  destruct (exec_lists t1 d1 name parts o) as [[r1 x1]|] eqn:E3, (exec_lists t2 d2 name parts o) as [[r2 x2]|] eqn:E4;
-    try (destruct D2 as [D2a D2b]; first [specialize (D2a eq_refl) | specialize (D2b eq_refl)]; discriminate).
+  clear D. pose proof (exec_lists_dom t1 t2 d1 d2 name parts o) as D.
+  destruct (exec_lists t1 d1 name parts o) as [[r1 x1]|] eqn:E3, (exec_lists t2 d2 name parts o) as [[r2 x2]|] eqn:E4; dom_case D.
   { eapply exec_lists_sim; eauto. }
-  clear D2. unfold exec_zsets.
-  pose proof (exec_streams_dom t1 t2 d1 d2 name parts o) as D3.
-  destruct (exec_streams t1 d1 name parts o) as [[r1 x1]|] eqn:E5, (exec_streams t2 d2 name parts o) as [[r2 x2]|] eqn:E6;
-    try (destruct D3 as [D3a D3b]; first [specialize (D3a eq_refl) | specialize (D3b eq_refl)]; discriminate).
+  clear D. pose proof (exec_zsets_dom t1 t2 d1 d2 name parts o) as D.
+  destruct (exec_zsets t1 d1 name parts o) as [[r1 x1]|] eqn:E5, (exec_zsets t2 d2 name parts o) as [[r2 x2]|] eqn:E6; dom_case D.
+  { eapply exec_zsets_sim; eauto. }
+  clear D. pose proof (exec_streams_dom t1 t2 d1 d2 name parts o) as D.
+  destruct (exec_streams t1 d1 name parts o) as [[r1 x1]|] eqn:E7, (exec_streams t2 d2 name parts o) as [[r2 x2]|] eqn:E8; dom_case D.
   { eapply exec_streams_sim; eauto. }
-  clear D3. pose proof (exec_scan_dom t1 t2 d1 d2 name parts o) as D4.
-  destruct (exec_scan t1 d1 name parts o) as [[r1 x1]|] eqn:E7, (exec_scan t2 d2 name parts o) as [[r2 x2]|] eqn:E8;
-    try (destruct D4 as [D4a D4b]; first [specialize (D4a eq_refl) | specialize (D4b eq_refl)]; discriminate).
+  clear D. pose proof (exec_scan_dom t1 t2 d1 d2 name parts o) as D.
+  destruct (exec_scan t1 d1 name parts o) as [[r1 x1]|] eqn:E9, (exec_scan t2 d2 name parts o) as [[r2 x2]|] eqn:E10; dom_case D.
   { eapply exec_scan_sim; eauto. }
+  clear D. pose proof (exec_scripts_dom t1 t2 d1 d2 name parts o) as D.
+  destruct (exec_scripts t1 d1 name parts o) as [[r1 x1]|] eqn:E11, (exec_scripts t2 d2 name parts o) as [[r2 x2]|] eqn:E12; dom_case D.
+  { eapply exec_scripts_sim; eauto. }
   exact I.
 Qed.
 
+(** ---- all sixteen databases ---- *)
+Definition sims (a b : list db) : Prop := Forall2 sim a b.
+Lemma sims_refl l : sims l l.
+Proof. induction l; constructor; [apply sim_refl|assumption]. Qed.
+Lemma sims_nth : forall a b i, sims a b -> sim (nth i a empty_db) (nth i b empty_db).
+Proof. intros a b i H. revert i. induction H; intros [|i]; cbn [nth]; try apply sim_empty; auto. Qed.
+Lemma sims_list_set : forall a b i x y, sims a b -> sim x y -> sims (list_set a i x) (list_set b i y).
+Proof. intros a b i x y H. revert i. induction H; intros [|i] Hs; cbn [list_set]; constructor; auto. apply IHForall2. exact Hs. Qed.
+Lemma sims_flush a b : sims a b -> sims (map (fun _ => empty_db) a) (map (fun _ => empty_db) b).
+Proof. induction 1; cbn [map]; constructor; [apply sim_empty|assumption]. Qed.
+Lemma sims_datasets a b : sims a b -> map dataset a = map dataset b.
+Proof. induction 1; cbn [map]; [reflexivity|]. rewrite (sim_dataset _ _ H), IHForall2. reflexivity. Qed.
+
 (** one command at two clock readings *)
-Lemma step_db0_sim t1 t2 d1 d2 parts o :
-  mem_name (cmd_name parts) clocked_cmds = false ->
-  sim d1 d2 -> fresh t1 d1 = true -> fresh t2 d2 = true ->
-  sim (step_db0 t1 d1 parts o) (step_db0 t2 d2 parts o).
+Lemma step_dbs_sim t1 t2 a b dbi parts o :
+  mem_name (cmd_name parts) untimed_excluded = false ->
+  sims a b -> fresh_all t1 a = true -> fresh_all t2 b = true ->
+  sims (step_dbs t1 a dbi parts o) (step_dbs t2 b dbi parts o).
 Proof.
-  intros Hc H F1 F2. unfold step_db0, cmd_name in *.
+  intros Hc H F1 F2. unfold step_dbs, cmd_name in *.
   destruct parts as [|first rest]; [exact H|]. destruct first; try exact H.
-  repeat match goal with |- context [if ?c then _ else _] => destruct c end; try exact H; try apply sim_empty.
-  pose proof (exec_db_sim t1 t2 d1 d2 (upper b) (FBulk b :: rest) o Hc H F1 F2) as X.
-  destruct (exec_db t1 d1 (upper b) (FBulk b :: rest) o) as [[? ?]|], (exec_db t2 d2 (upper b) (FBulk b :: rest) o) as [[? ?]|];
-    try contradiction; [exact X|exact H].
+  repeat match goal with |- context [if ?c then _ else _] => destruct c end; try exact H; try (apply sims_flush; exact H).
+  pose proof (exec_db_sim t1 t2 _ _ (upper b0) (FBulk b0 :: rest) o Hc (sims_nth a b (Z.to_nat dbi) H)
+                (fresh_all_nth t1 a _ F1) (fresh_all_nth t2 b _ F2)) as X.
+  destruct (exec_db t1 (nth (Z.to_nat dbi) a empty_db) (upper b0) (FBulk b0 :: rest) o) as [[? ?]|],
+           (exec_db t2 (nth (Z.to_nat dbi) b empty_db) (upper b0) (FBulk b0 :: rest) o) as [[? ?]|];
+    try contradiction; [apply sims_list_set; assumption|exact H].
 Qed.
 
-(** ================= traces: commands with the clock reading at which each ran ================= *)
-Definition tcmd := (Z * list frame)%type.
-Definition run_trace (tr : list tcmd) (d : db) : db :=
-  fold_left (fun d tp => step_db0 (fst tp) d (snd tp) None) tr d.
-Definition redo (now : Z) (log : list (list frame)) (d : db) : db :=
-  fold_left (fun d p => step_db0 now d p None) log d.
-(** the domain: that of c11_replay minus the commands that stamp the clock into values *)
-Definition timeless (parts : list frame) : bool :=
-  cmd_ok parts && negb (mem_name (cmd_name parts) clocked_cmds).
-(** nothing has expired when a command runs (live: at that command's clock reading) *)
-Fixpoint live_fresh (tr : list tcmd) (d : db) : bool :=
-  match tr with
-  | [] => true
-  | tp :: r => fresh (fst tp) d && live_fresh r (step_db0 (fst tp) d (snd tp) None)
-  end.
-Fixpoint redo_fresh (now : Z) (log : list (list frame)) (d : db) : bool :=
-  match log with
-  | [] => true
-  | p :: r => fresh now d && redo_fresh now r (step_db0 now d p None)
-  end.
-Definition logged_of (tr : list tcmd) : list (list frame) := filter is_logged (map snd tr).
-
-Lemma trace_redo_sim now' : forall tr d1 d2,
-  sim d1 d2 -> forallb (fun tp => timeless (snd tp)) tr = true ->
-  live_fresh tr d1 = true -> redo_fresh now' (logged_of tr) d2 = true ->
-  sim (run_trace tr d1) (redo now' (logged_of tr) d2).
-Proof.
-  induction tr as [|[t p] tr IH]; intros d1 d2 H Hok Hl Hr; [exact H|].
-  cbn [forallb snd] in Hok. apply andb_prop in Hok as [Hp Hok]. unfold timeless in Hp. apply andb_prop in Hp as [Hp1 Hp2].
-  apply negb_true_iff in Hp2.
-  cbn [live_fresh fst snd] in Hl. apply andb_prop in Hl as [Hl1 Hl2].
-  unfold logged_of in *. cbn [map filter snd] in *. cbn [run_trace fold_left fst snd]. fold (run_trace tr).
-  destruct (is_logged p) eqn:Lp.
-  - cbn [redo_fresh] in Hr. apply andb_prop in Hr as [Hr1 Hr2]. cbn [redo fold_left]. fold (redo now').
-    apply IH; auto. apply step_db0_sim; auto.
-  - rewrite (step_db0_unlogged t d1 p None Lp Hp1 Hl1) in *. apply IH; auto.
-Qed.
-
-(** the replayed server's database 0 is the redo of the log on the empty database *)
-Lemma replay_from_db0 now : forall log R, wf_srv R ->
-  get_db (replay_from now R log) 0 = redo now log (get_db R 0).
-Proof.
-  induction log as [|p log IH]; intros R Hw; [reflexivity|].
-  unfold replay_from, no_oracle in *. cbn [map fold_left redo]. fold (redo now).
-  rewrite IH.
-  - unfold replay_step. cbn [fst snd]. rewrite nc_db0 by exact Hw. reflexivity.
-  - unfold replay_step. apply nc_wf. exact Hw.
-Qed.
-Lemma replay_db0_redo now log : get_db (replay now log) 0 = redo now log empty_db.
-Proof. exact (replay_from_db0 now log replay_init eq_refl). Qed.
-
-(** ================= histories with a clock reading per event ================= *)
-(** the commands one event runs through process_normal_command, in execution order
-    (no password configured): a direct command, or the queue of an EXEC that is not aborted *)
-Definition ev_cmds (now : Z) (s : server) (e : ev) : list (list frame) :=
-  match e with
-  | EFrame c (FArray (FBulk nm :: rest)) =>
-      match zlookup c (s_conns s) with
-      | None => []
-      | Some cn =>
-          let command := upper (trim nm) in
-          if beq command (bs "MULTI") then []
-          else if beq command (bs "EXEC") then
-            (if c_intx cn then
-               if existsb (fun kb => was_modified_since now s (c_db cn) (fst kb) (snd kb)) (c_watched cn)
-               then [] else c_queue cn
-             else [])
-          else if beq command (bs "DISCARD") then []
-          else if beq command (bs "WATCH") then []
-          else if beq command (bs "UNWATCH") then []
-          else if beq command (bs "AUTH") then []
-          else if c_intx cn && negb (mem_name command tx_not_queued) then []
-          else [FBulk nm :: rest]
-      end
-  | _ => []
-  end.
-
-Definition conns_okT (s : server) : Prop :=
-  forall c cn, zlookup c (s_conns s) = Some cn -> c_db cn = 0 /\ forallb timeless (c_queue cn) = true.
-Record linv (s : server) : Prop := {
-  linv_wf : wf_srv s; linv_pw : s_password s = None; linv_conns : conns_okT s }.
-Definition ev_okT (e : ev) : bool :=
-  match e with EFrame _ (FArray parts) => timeless parts | _ => true end.
-
-Lemma timeless_cmd_ok p : timeless p = true -> cmd_ok p = true.
-Proof. unfold timeless. intros H. apply andb_prop in H as [H _]. exact H. Qed.
-Lemma conns_okT_set s c cn : conns_okT s -> c_db cn = 0 -> forallb timeless (c_queue cn) = true ->
-  forall s', s_conns s' = zset_ c cn (s_conns s) -> conns_okT s'.
-Proof.
-  intros H Hd Hq s' E c' cn' Hl. rewrite E in Hl. destruct (Z.eq_dec c' c) as [->|Hn].
-  - rewrite zlookup_zset_same in Hl. inversion Hl; subst. auto.
-  - rewrite zlookup_zset_other in Hl by exact Hn. exact (H c' cn' Hl).
-Qed.
-Lemma conns_okT_del s c : conns_okT s -> forall s', s_conns s' = zremove c (s_conns s) -> conns_okT s'.
-Proof.
-  intros H s' E c' cn' Hl. rewrite E in Hl. destruct (Z.eq_dec c' c) as [->|Hn].
-  - rewrite zlookup_zremove_same in Hl. discriminate.
-  - rewrite zlookup_zremove_other in Hl by exact Hn. exact (H c' cn' Hl).
-Qed.
-Lemma linv_same s s' : linv s -> s_dbs s' = s_dbs s -> s_password s' = s_password s -> conns_okT s' -> linv s'.
-Proof.
-  intros [H1 H2 H3] Hd Hp Hc. constructor; [unfold wf_srv; rewrite Hd; exact H1|rewrite Hp; exact H2|exact Hc].
-Qed.
-
-(** what one event does, as a redo of its commands *)
-Record ev_spec (now : Z) (s s' : server) (cmds : list (list frame)) : Prop := {
-  es_inv : linv s';
-  es_db : get_db s' 0 = redo now cmds (get_db s 0);
-  es_log : aof_log s' = aof_log s ++ filter is_logged cmds
-}.
-Lemma ev_spec_nil now s s' : linv s -> s_dbs s' = s_dbs s -> s_password s' = s_password s -> s_aof s' = s_aof s ->
-  conns_okT s' -> ev_spec now s s' [].
-Proof.
-  intros Hi Hd Hp Ha Hc. constructor; [eapply linv_same; eauto| |].
-  - unfold get_db. rewrite Hd. reflexivity.
-  - cbn [filter]. unfold aof_log. rewrite Ha, app_nil_r. reflexivity.
-Qed.
-
-Lemma nc_spec now s c parts :
-  linv s -> timeless parts = true ->
-  ev_spec now s (snd (normal_command now s c 0 parts None)) [parts].
-Proof.
-  intros [H1 H2 H3] Hok. pose proof (cmd_ok_not_select _ (timeless_cmd_ok _ Hok)) as Hsel.
-  destruct (nc_conns now s c 0 parts None H2 Hsel) as [Hc Hp].
-  constructor.
-  - constructor; [apply nc_wf; exact H1|exact Hp|]. unfold conns_okT. rewrite Hc. exact H3.
-  - rewrite nc_db0 by exact H1. reflexivity.
-  - unfold aof_log. rewrite nc_aof. cbn [filter]. destruct (is_logged parts); [reflexivity|rewrite app_nil_r; reflexivity].
-Qed.
-Lemma exec_queue_spec now : forall q s acc,
-  linv s -> forallb timeless q = true -> ev_spec now s (snd (exec_queue now s 0 q acc)) q.
-Proof.
-  induction q as [|parts q IH]; intros s acc Hi Hq; cbn [exec_queue].
-  - constructor; [exact Hi|reflexivity|]. cbn [filter]. rewrite app_nil_r. reflexivity.
-  - cbn [forallb] in Hq. apply andb_prop in Hq as [Hq1 Hq2].
-    pose proof (nc_spec now s 0 parts Hi Hq1) as [N1 N2 N3].
-    destruct (normal_command now s 0 0 parts None) as [rep s1]. cbn [snd] in *.
-    destruct (IH s1 (rep :: acc) N1 Hq2) as [X1 X2 X3]. constructor; [exact X1| |].
-    + rewrite X2, N2. reflexivity.
-    + rewrite X3, N3. cbn [filter]. destruct (is_logged parts); [|rewrite app_nil_r; reflexivity].
-      rewrite <- app_assoc. reflexivity.
-Qed.
-
-Lemma ev_step_spec now s e :
-  linv s -> ev_okT e = true ->
-  ev_spec now s (ev_step now s e) (ev_cmds now s e) /\ forallb timeless (ev_cmds now s e) = true.
-Proof.
-  intros Hi Hok. destruct e as [c|c|c req]; cbn [ev_step ev_cmds].
-  - split; [|reflexivity]. apply ev_spec_nil; try reflexivity; [exact Hi|].
-    unfold connect. rewrite (linv_pw _ Hi).
-    eapply conns_okT_set; [exact (linv_conns _ Hi)| | |reflexivity]; reflexivity.
-  - split; [|reflexivity]. apply ev_spec_nil; try reflexivity; [exact Hi|].
-    eapply conns_okT_del; [exact (linv_conns _ Hi)|reflexivity].
-  - (* a request frame; QUIT closes the connection afterwards *)
-    assert (Hq : forall s1 cmds, ev_spec now s s1 cmds ->
-                   ev_spec now s (if is_quit req then del_conn s1 c else s1) cmds).
-    { intros s1 cmds X. destruct (is_quit req); [|exact X]. destruct X as [X1 X2 X3].
-      constructor; [|exact X2|exact X3].
-      eapply linv_same; [exact X1|reflexivity|reflexivity|].
-      eapply conns_okT_del; [exact (linv_conns _ X1)|reflexivity]. }
-    assert (Hsame : ev_spec now s s []).
-    { apply ev_spec_nil; try reflexivity; [exact Hi|exact (linv_conns _ Hi)]. }
-    unfold process_frame.
-    destruct req as [| | | | |l| | | | | | |]; try (split; [apply Hq; exact Hsame|reflexivity]).
-    destruct l as [|first rest]; [split; [apply Hq; exact Hsame|reflexivity]|].
-    destruct first as [| | |nm| | | | | | | | |]; try (split; [apply Hq; exact Hsame|reflexivity]).
-    destruct (zlookup c (s_conns s)) as [cn|] eqn:Hc; [|split; [apply Hq; exact Hsame|reflexivity]].
-    destruct (linv_conns _ Hi c cn Hc) as [Hdb Hqu].
-    rewrite (linv_pw _ Hi). cbn [andb].
-    set (parts := FBulk nm :: rest) in *. cbn [ev_okT] in Hok.
-    assert (Hconn : forall s', s_dbs s' = s_dbs s -> s_password s' = s_password s -> s_aof s' = s_aof s ->
-              conns_okT s' -> ev_spec now s (if is_quit (FArray parts) then del_conn s' c else s') []).
-    { intros s' Hd Hp Ha Hcs. apply Hq. apply ev_spec_nil; auto. }
-    destruct (beq (upper (trim nm)) (bs "MULTI")).
-    { split; [|reflexivity]. destruct (c_intx cn); [apply Hq; exact Hsame|]. cbn [snd]. apply Hconn; try reflexivity.
-      eapply conns_okT_set; [exact (linv_conns _ Hi)| | |reflexivity]; [exact Hdb|reflexivity]. }
-    destruct (beq (upper (trim nm)) (bs "EXEC")).
-    { unfold h_exec. destruct (c_intx cn); [|split; [apply Hq; exact Hsame|reflexivity]]. cbn [negb].
-      assert (Hi1 : linv (set_conn s c (clear_tx cn))).
-      { eapply linv_same; [exact Hi|reflexivity|reflexivity|].
-        eapply conns_okT_set; [exact (linv_conns _ Hi)| | |reflexivity]; [exact Hdb|reflexivity]. }
-      destruct (existsb _ (c_watched cn)).
-      { split; [|reflexivity]. cbn [snd]. apply Hconn; try reflexivity. exact (linv_conns _ Hi1). }
-      split; [|exact Hqu]. rewrite Hdb.
-      pose proof (exec_queue_spec now (c_queue cn) (set_conn s c (clear_tx cn)) [] Hi1 Hqu) as X.
-      destruct (exec_queue now (set_conn s c (clear_tx cn)) 0 (c_queue cn) []) as [reps s2]. cbn [snd] in *.
-      apply Hq. destruct X as [X1 X2 X3]. constructor; [exact X1|exact X2|exact X3]. }
-    destruct (beq (upper (trim nm)) (bs "DISCARD")).
-    { split; [|reflexivity]. destruct (c_intx cn); [|apply Hq; exact Hsame]. cbn [negb snd]. apply Hconn; try reflexivity.
-      eapply conns_okT_set; [exact (linv_conns _ Hi)| | |reflexivity]; [exact Hdb|reflexivity]. }
-    destruct (beq (upper (trim nm)) (bs "WATCH")).
-    { split; [|reflexivity]. destruct (len parts <? 2); [apply Hq; exact Hsame|].
-      destruct (c_intx cn); [apply Hq; exact Hsame|].
-      destruct (watch_loop_partial (get_trk s (c_db cn)) rest (c_watched cn)) as [[t' w'] okb].
-      cbn [snd]. apply Hconn; try reflexivity.
-      eapply conns_okT_set; [exact (linv_conns _ Hi)| | |reflexivity]; [exact Hdb|exact Hqu]. }
-    destruct (beq (upper (trim nm)) (bs "UNWATCH")).
-    { split; [|reflexivity]. cbn [snd]. apply Hconn; try reflexivity.
-      eapply conns_okT_set; [exact (linv_conns _ Hi)| | |reflexivity]; [exact Hdb|exact Hqu]. }
-    destruct (beq (upper (trim nm)) (bs "AUTH")).
-    { split; [|reflexivity]. rewrite (h_auth_nopw s c parts (linv_pw _ Hi)). apply Hq. exact Hsame. }
-    destruct (c_intx cn && negb (mem_name (upper (trim nm)) tx_not_queued)).
-    { split; [|reflexivity]. cbn [snd]. apply Hconn; try reflexivity.
-      eapply conns_okT_set; [exact (linv_conns _ Hi)| | |reflexivity]; [exact Hdb|].
-      cbn [with_tx c_queue]. rewrite forallb_app, Hqu. cbn [forallb]. rewrite Hok. reflexivity. }
-    split; [|cbn [forallb]; rewrite Hok; reflexivity].
-    rewrite Hdb. apply Hq. apply nc_spec; [exact Hi|exact Hok].
-Qed.
-
-Definition tev := (Z * ev)%type.
-Definition tev_step (s : server) (te : tev) : server := ev_step (fst te) s (snd te).
-Definition run_tevs (h : list tev) : server := fold_left tev_step h (init_server None).
-(** the executed commands of a history, each with the clock reading of its event *)
-Fixpoint trace_from (s : server) (h : list tev) : list tcmd :=
-  match h with
-  | [] => []
-  | te :: r => map (fun p => (fst te, p)) (ev_cmds (fst te) s (snd te)) ++ trace_from (tev_step s te) r
-  end.
-Definition trace_of (h : list tev) : list tcmd := trace_from (init_server None) h.
-
-Lemma run_trace_app a b d : run_trace (a ++ b) d = run_trace b (run_trace a d).
-Proof. unfold run_trace. apply fold_left_app. Qed.
-Lemma run_trace_same_time t cmds d : run_trace (map (fun p => (t, p)) cmds) d = redo t cmds d.
-Proof. revert d. induction cmds as [|p cmds IH]; intros d; [reflexivity|]. cbn [map]. unfold run_trace, redo in *. cbn [fold_left fst snd]. apply IH. Qed.
-Lemma logged_of_app a b : logged_of (a ++ b) = logged_of a ++ logged_of b.
-Proof. unfold logged_of. rewrite map_app, filter_app. reflexivity. Qed.
-Lemma logged_of_same_time t cmds : logged_of (map (fun p => (t, p)) cmds) = filter is_logged cmds.
-Proof. unfold logged_of. rewrite map_map. cbn [snd]. rewrite map_id. reflexivity. Qed.
-
-Lemma history_is_trace : forall h s,
-  linv s -> forallb (fun te => ev_okT (snd te)) h = true ->
-  get_db (fold_left tev_step h s) 0 = run_trace (trace_from s h) (get_db s 0) /\
-  aof_log (fold_left tev_step h s) = aof_log s ++ logged_of (trace_from s h) /\
-  forallb (fun tp => timeless (snd tp)) (trace_from s h) = true.
-Proof.
-  induction h as [|[t e] h IH]; intros s Hi Hok; cbn [fold_left trace_from].
-  - rewrite app_nil_r. auto.
-  - cbn [forallb snd] in Hok. apply andb_prop in Hok as [Hok1 Hok2].
-    destruct (ev_step_spec t s e Hi Hok1) as [[E1 E2 E3] E4].
-    change (tev_step s (t, e)) with (ev_step t s e). cbn [fst snd].
-    destruct (IH (ev_step t s e) E1 Hok2) as (I1 & I2 & I3). repeat split.
-    + rewrite I1, run_trace_app, run_trace_same_time, E2. reflexivity.
-    + rewrite I2, E3, logged_of_app, logged_of_same_time, app_assoc. reflexivity.
-    + rewrite forallb_app, I3, andb_true_r. rewrite forallb_forall in *. intros [t' p] Hin.
-      apply in_map_iff in Hin as (p' & Hp & Hin). inversion Hp; subst. cbn [snd]. exact (E4 _ Hin).
-Qed.
-Lemma linv_init : linv (init_server None).
-Proof. constructor; try reflexivity. intros c cn Hl. cbn in Hl. discriminate. Qed.
-
-(** THE REPLAY THEOREM, ANY CLOCK: every event of the history at its own clock reading, the
-    redo at any reading [now'].  When nothing has expired at the moment a command runs - live,
-    and in the redo - re-executing the file yields the live dataset: values and TTL presence. *)
+(** ================= the replay theorem with a clock ================= *)
+Definition timeless (x : tcmd) : bool := negb (mem_name (cmd_name (snd (snd x))) untimed_excluded).
 Theorem replay_any_time h now' :
-  forallb (fun te => ev_okT (snd te)) h = true ->
-  live_fresh (trace_of h) empty_db = true ->
-  redo_fresh now' (logged_of (trace_of h)) empty_db = true ->
-  aof_log (run_tevs h) = logged_of (trace_of h) /\
-  dataset (get_db (replay now' (aof_log (run_tevs h))) 0) = dataset (get_db (run_tevs h) 0).
+  forallb (fun te => ev_ok (snd te)) h = true ->
+  forallb timeless (trace_of h) = true ->
+  live_fresh (trace_of h) dbs0 = true ->
+  redo_fresh now' (aof_log (run_tevs h)) (0, dbs0) = true ->
+  map dataset (s_dbs (replay now' (aof_log (run_tevs h)))) = map dataset (s_dbs (run_tevs h)).
 Proof.
-  intros Hok Hl Hr. unfold run_tevs, trace_of in *.
-  destruct (history_is_trace h (init_server None) linv_init Hok) as (H1 & H2 & H3).
-  change (aof_log (init_server None)) with (@nil (list frame)) in H2. cbn [app] in H2.
-  split; [exact H2|]. rewrite H2, replay_db0_redo, H1. symmetry. apply sim_dataset.
-  change (get_db (init_server None) 0) with empty_db.
-  apply trace_redo_sim; auto. apply sim_empty.
+  intros Hok Ht Hl Hr. rewrite (history_file h Hok) in *. rewrite replay_redo.
+  unfold run_tevs, trace_of in *.
+  destruct (history_is_trace h (init_server None) linv_init Hok) as (H1 & _ & H3).
+  rewrite H1. symmetry. apply sims_datasets.
+  apply (trace_redo_rel sims now' timeless); auto; [|apply sims_refl|discriminate].
+  intros t dbi p d1 d2 HP _ HR F1 F2. unfold timeless in HP. cbn [snd] in HP. apply negb_true_iff in HP.
+  apply step_dbs_sim; assumption.
 Qed.
 
-(** non-vacuity: events spread over an hour, TTLs set, a transaction; redo a day later *)
+(** non-vacuity: events spread over an hour in two databases, TTLs set, a transaction; redo a day later *)
 Definition sample_timed : list tev :=
   [(0, EConn 1); (0, EConn 2);
    (1000, EFrame 1 (cmd [bs "SET"; bs "k"; bs "a"; bs "EX"; bs "100000"]));
+   (1500, EFrame 2 (cmd [bs "SELECT"; bs "2"]));
    (2000, EFrame 2 (cmd [bs "MULTI"]));
    (2500, EFrame 2 (cmd [bs "RPUSH"; bs "l"; bs "x"; bs "y"]));
    (2600, EFrame 2 (cmd [bs "SETEX"; bs "t"; bs "90000"; bs "v"]));
-   (60000, EFrame 1 (cmd [bs "GET"; bs "k"]));
+   (60000, EFrame 1 (cmd [bs "GETSET"; bs "k"; bs "b"]));
    (3600000, EFrame 2 (cmd [bs "EXEC"]));
    (3600001, EFrame 1 (cmd [bs "XADD"; bs "x"; bs "1-1"; bs "f"; bs "v"]));
-   (3600002, EFrame 1 (cmd [bs "EXPIRE"; bs "l"; bs "50"]));
-   (3600003, EFrame 1 (cmd [bs "PERSIST"; bs "k"]))].
+   (3600002, EFrame 2 (cmd [bs "EXPIRE"; bs "l"; bs "50"]));
+   (3600003, EFrame 1 (cmd [bs "PEXPIRE"; bs "k"; bs "100000"]))].
 Lemma sample_timed_ok :
-  forallb (fun te => ev_okT (snd te)) sample_timed = true /\
-  live_fresh (trace_of sample_timed) empty_db = true /\
-  redo_fresh 86400000 (logged_of (trace_of sample_timed)) empty_db = true /\
-  len (logged_of (trace_of sample_timed)) = 6 /\
-  get_db (replay 86400000 (aof_log (run_tevs sample_timed))) 0 <> get_db (run_tevs sample_timed) 0.
-Proof. repeat split; try (vm_compute; reflexivity). intro H; vm_compute in H; discriminate H. Qed.
+  forallb (fun te => ev_ok (snd te)) sample_timed = true /\
+  forallb timeless (trace_of sample_timed) = true /\
+  live_fresh (trace_of sample_timed) dbs0 = true /\
+  redo_fresh 86400000 (aof_log (run_tevs sample_timed)) (0, dbs0) = true /\
+  len (aof_log (run_tevs sample_timed)) = 12 /\
+  s_dbs (replay 86400000 (aof_log (run_tevs sample_timed))) <> s_dbs (run_tevs sample_timed).
+Proof. repeat (apply conj; [vm_compute; reflexivity|]). intro H; vm_compute in H; discriminate H. Qed.
 
 (** ================= re-sending the file over a connection IS the redo ================= *)
-(** what the harness (and any external redo tool) does: the logged commands are sent as
-    request frames over a fresh connection, i.e. through process_frame.  A logged name is
-    never transaction control and contains no blanks, so every frame goes straight to
-    process_normal_command in database 0: the result is [replay]. *)
+(** what the harness (and any external redo tool) does: the records of the file are sent as
+    request frames over a fresh connection, i.e. through process_frame.  A logged name - and
+    SELECT - is never transaction control and contains no blanks, so every frame goes straight
+    to process_normal_command in the database the connection has selected: the result is
+    [replay]. *)
 Definition plain_name (u : bytes) : bool :=
   forallb (fun c => negb (is_space c)) u
   && negb (beq u (bs "MULTI")) && negb (beq u (bs "EXEC")) && negb (beq u (bs "DISCARD"))
-  && negb (beq u (bs "WATCH")) && negb (beq u (bs "UNWATCH")) && negb (beq u (bs "AUTH"))
-  && negb (beq u (bs "SELECT")).
-Lemma write_names_plain : forallb plain_name write_commands = true.
+  && negb (beq u (bs "WATCH")) && negb (beq u (bs "UNWATCH")) && negb (beq u (bs "AUTH")).
+Lemma write_names_plain : forallb plain_name (bs "SELECT" :: write_commands) = true.
 Proof. vm_compute. reflexivity. Qed.
 Lemma bmem_In x l : bmem x l = true -> In x l.
 Proof.
@@ -843,13 +651,16 @@ Proof.
   intros H. unfold trim. rewrite (drop_while_nospace b H).
   rewrite drop_while_nospace by (rewrite forallb_rev; exact H). apply rev_involutive.
 Qed.
+(** a record of the file: a logged command or the engine's SELECT *)
+Definition file_record (parts : list frame) : bool :=
+  match parts with FBulk nm :: _ => mem_name (upper nm) (bs "SELECT" :: write_commands) | _ => false end.
 
 Lemma resend_is_normal now s cn parts o :
-  is_logged parts = true -> s_password s = None ->
-  zlookup replay_conn (s_conns s) = Some cn -> c_db cn = 0 -> c_intx cn = false ->
-  process_frame now s replay_conn (FArray parts) o = normal_command now s replay_conn 0 parts o.
+  file_record parts = true -> s_password s = None ->
+  zlookup replay_conn (s_conns s) = Some cn -> c_intx cn = false ->
+  process_frame now s replay_conn (FArray parts) o = normal_command now s replay_conn (c_db cn) parts o.
 Proof.
-  unfold is_logged. intros Hl Hp Hc Hd Hi. destruct parts as [|first rest]; [discriminate|].
+  unfold file_record. intros Hl Hp Hc Hi. destruct parts as [|first rest]; [discriminate|].
   destruct first; try discriminate.
   pose proof write_names_plain as W. rewrite forallb_forall in W.
   specialize (W (upper b) (bmem_In _ _ Hl)). unfold plain_name in W.
@@ -858,36 +669,38 @@ Proof.
   rewrite nospace_upper in W.
   unfold process_frame. rewrite Hc, Hp. cbn [andb]. rewrite (trim_nospace b W).
   repeat match goal with X : beq (upper b) _ = false |- _ => rewrite X end.
-  rewrite Hi, Hd. reflexivity.
+  rewrite Hi. reflexivity.
 Qed.
 
-(** the connection of the redo stays in database 0, outside MULTI *)
 Definition resend_step (now : Z) (s : server) (parts : list frame) : server :=
   snd (process_frame now s replay_conn (FArray parts) None).
 Definition resend (now : Z) (log : list (list frame)) : server := fold_left (resend_step now) log replay_init.
 Lemma resend_is_replay now log :
-  forallb is_logged log = true -> resend now log = replay now log.
+  forallb file_record log = true -> resend now log = replay now log.
 Proof.
   unfold resend, replay, replay_o, no_oracle.
-  assert (G : forall l s, forallb is_logged l = true -> s_password s = None ->
-                (exists cn, zlookup replay_conn (s_conns s) = Some cn /\ c_db cn = 0 /\ c_intx cn = false) ->
+  assert (G : forall l s, forallb file_record l = true -> s_password s = None ->
+                (exists cn, zlookup replay_conn (s_conns s) = Some cn /\ c_intx cn = false) ->
                 fold_left (resend_step now) l s = fold_left (replay_step now) (map (fun p => (p, None)) l) s).
-  { induction l as [|p l IH]; intros s Hl Hp (cn & Hc & Hd & Hi); [reflexivity|].
+  { induction l as [|p l IH]; intros s Hl Hp (cn & Hc & Hi); [reflexivity|].
     cbn [forallb] in Hl. apply andb_prop in Hl as [Hl1 Hl2]. cbn [map fold_left].
-    unfold resend_step at 2. unfold replay_step at 2. cbn [fst snd].
-    rewrite (resend_is_normal now s cn p None Hl1 Hp Hc Hd Hi).
-    assert (Hsel : beq (cmd_name p) (bs "SELECT") = false).
-    { unfold is_logged in Hl1. unfold cmd_name. destruct p as [|[] ?]; try discriminate.
-      pose proof write_names_plain as W. rewrite forallb_forall in W.
-      specialize (W (upper b) (bmem_In _ _ Hl1)). unfold plain_name in W.
-      apply andb_prop in W as [_ W]. apply negb_true_iff in W. exact W. }
-    destruct (nc_conns now s replay_conn 0 p None Hp Hsel) as [Hcs Hps].
-    apply IH; [exact Hl2|exact Hps|]. exists cn. rewrite Hcs. auto. }
-  intros Hl. apply G; [exact Hl|reflexivity|]. eexists. split; [reflexivity|]. split; reflexivity.
+    unfold resend_step at 2. unfold replay_step at 2. cbn [fst snd]. unfold conn_db. rewrite Hc.
+    rewrite (resend_is_normal now s cn p None Hl1 Hp Hc Hi).
+    destruct (nc_conn now s replay_conn (c_db cn) p None cn Hp Hc) as (Hp' & (cn' & Hc' & _ & Hi' & _) & _).
+    apply IH; [exact Hl2|exact Hp'|]. exists cn'. rewrite Hi', Hi. auto. }
+  intros Hl. apply G; [exact Hl|reflexivity|]. eexists. split; reflexivity.
 Qed.
-(** every command in a server's log is a logged command *)
-Lemma nc_log_logged now s c dbi parts o :
-  forallb is_logged (s_aof s) = true -> forallb is_logged (s_aof (snd (normal_command now s c dbi parts o))) = true.
-Proof. intros H. rewrite nc_aof. destruct (is_logged parts) eqn:E; [cbn [forallb]; rewrite E, H; reflexivity|exact H]. Qed.
-Lemma logged_of_all_logged tr : forallb is_logged (logged_of tr) = true.
-Proof. unfold logged_of. apply forallb_forall. intros p Hp. apply filter_In in Hp as [_ Hp]. exact Hp. Qed.
+(** the file of a history holds records only *)
+Lemma recs_records : forall cmds last, forallb file_record (recs last cmds) = true.
+Proof.
+  induction cmds as [|[dbi p] cmds IH]; intros last; cbn [recs]; [reflexivity|].
+  destruct (is_logged p) eqn:Lp; [|apply IH].
+  assert (Hp : file_record p = true).
+  { unfold file_record, is_logged in *. destruct p as [|[] ?]; try discriminate.
+    unfold mem_name in *. cbn [bmem]. rewrite Lp. apply orb_true_r. }
+  destruct (same_db last dbi); cbn [app forallb]; rewrite ?Hp, IH; reflexivity.
+Qed.
+Lemma history_resend now h :
+  forallb (fun te => ev_ok (snd te)) h = true ->
+  resend now (aof_log (run_tevs h)) = replay now (aof_log (run_tevs h)).
+Proof. intros Hok. apply resend_is_replay. rewrite (history_file h Hok). apply recs_records. Qed.
